@@ -754,12 +754,9 @@ func (sd *SpecAnalyser) compareSimpleSchema(location DifferenceLocation, schema1
 		}
 	}
 
-	if isArray(schema1) {
-		if isArray(schema2) {
-			sd.compareSimpleSchema(location, &schema1.Items.SimpleSchema, &schema2.Items.SimpleSchema)
-		} else {
-			sd.addDiffs(location, addTypeDiff([]TypeDiff{}, TypeDiff{Change: ChangedType, FromType: getSchemaTypeStr(schema1), ToType: getSchemaTypeStr(schema2)}))
-		}
+	// a change between array and non-array is already reported by CompareProps (in both directions)
+	if isArray(schema1) && isArray(schema2) {
+		sd.compareSimpleSchema(location, &schema1.Items.SimpleSchema, &schema2.Items.SimpleSchema)
 	}
 }
 
